@@ -28,6 +28,8 @@ def mentioned(F):
 
 
 def build(suite, info):
+    if suite == "trans_count":
+        return trans_case(None, info["chain"], info["N"], info["clauses"], info["seed"])
     if suite != "builders_fresh":
         raise ValueError("unknown suite " + suite)
     nv, lits, op, k = info["nv"], list(info["lits"]), info["op"], info["k"]
@@ -68,6 +70,50 @@ def build(suite, info):
                 nontrivial=len(lits) > 0, info=info)
 
 
+def promised(targv, N):
+    t = targv[0]
+    if t in ("xor", "or", "maj", "eq", "neq", "one", "exact", "atleast", "atmost", "anybut"):
+        return int(targv[1]) * N
+    if t == "ite":
+        return 3 * N
+    if t == "lift":
+        return 2 * int(targv[1]) * N
+    return N   # flip, none, shuffle
+
+
+def trans_case(rng, chain_idx, N, clauses, seed):
+    from harness.props import C17 as H17
+    import cnfgen
+    import random
+    steps = [H17.TRANS[i] for i in chain_idx]
+
+    def impl():
+        F = CNF()
+        F.update_variable_number(0)
+        F.add_linear([1, 2], ">=", 1)
+        return ok("{} {}".format(F.number_of_variables(), fmt_clauses(F)))
+
+    def oracle():
+        F = cnfgen.CNF()
+        for c in clauses:
+            F.add_clause(list(c))
+        F.update_variable_number(N)
+        random.seed(seed)
+        n = N
+        for targv, f in steps:
+            F = f(F)
+            n = promised([str(a) for a in targv], n)
+            got = F.number_of_variables()
+            if got != n:
+                return {"chain": [t for t, _ in steps], "input_variables": N, "clauses": clauses,
+                        "declared": got, "promised": n, "after": targv}
+            if mentioned(F) > got or any(l == 0 for c in F for l in c):
+                return {"chain": [t for t, _ in steps], "literal_out_of_range": mentioned(F), "declared": got}
+        return None
+    return Case("trans_count", req("linF", 0, OPCODE[">="], 1, enc_list([1, 2])), impl, oracle,
+                cls="+".join(str(t[0][0]) for t in steps), info={"chain": list(chain_idx), "N": N, "clauses": clauses, "seed": seed})
+
+
 def cases(ctx):
     tier, seed = ctx["tier"], ctx["seed"]
     rng = common.sub_rng(seed, "C10b")
@@ -81,4 +127,16 @@ def cases(ctx):
         lits = rng.lits(n, maxvar=n + 4)
         out.append(build("builders_fresh", dict(nv=rng.choice([0, 0, 1, 3, 8]), lits=lits, op=rng.choice(OPS),
                                                  k=rng.randint(-1, n + 1))))
+    from harness.props import C17 as H17
+    nt = len(H17.TRANS)
+    small = [i for i, (t, _) in enumerate(H17.TRANS) if t[0] in ("xor", "or", "eq", "neq", "one", "ite", "flip", "none", "shuffle", "lift")]
+    for i in range(nt):
+        for N, clauses in ((5, [[1, -2]]), (4, []), (3, [[1], [-2, 3]]), (6, [[2, -3], []])):
+            out.append(trans_case(rng, [i], N, clauses, rng.randint(0, 10 ** 6)))
+    for _ in range(60 if tier == "quick" else 600):
+        a, b = rng.choice(small), rng.choice(small)
+        N = rng.randint(1, 5)
+        m = rng.randint(0, 3)
+        clauses = [[rng.choice([1, -1]) * rng.randint(1, max(1, N - 1)) for _ in range(rng.randint(0, 2))] for _ in range(m)]
+        out.append(trans_case(rng, [a, b], N, clauses, rng.randint(0, 10 ** 6)))
     return out
